@@ -65,9 +65,11 @@ fn before_commit(ctx: &Ctx, s: &WriteSpec) {
         }
         // another writer comes and goes on the same cache while this one is still open
         let other = other_blob(ctx, s.blob);
+        // (it commits only what it managed to write: under fault injection its own calls may fail)
         if let Ok(mut w) = cacache::WriteOpts::new().open_hash_sync(&ctx.cache) {
-            let _ = w.write_all(&other);
-            let _ = w.commit();
+            if w.write_all(&other).is_ok() {
+                let _ = w.commit();
+            }
         }
     }
     COMMIT_T0.with(|c| c.set(Some(now_ms())));
@@ -293,6 +295,19 @@ pub fn declared_integrity_ex(d: IntegDecl, algo: Algo, data: &[u8], other: &[u8]
         }
         IntegDecl::MultiAllWrong => Some(format!("{} {}", wrong(1), wrong(2))),
         IntegDecl::DigestOfOtherBlob => Some(blob::sri(algo, other)),
+        IntegDecl::MultiWeakerOfOther => {
+            let weaker = match algo {
+                Algo::Sha512 => Some(Algo::Sha256),
+                Algo::Sha384 => Some(Algo::Sha1),
+                Algo::Sha256 => Some(Algo::Sha1),
+                Algo::Sha1 => Some(Algo::Xxh3),
+                Algo::Xxh3 => None,
+            };
+            match weaker {
+                Some(w) => Some(format!("{} {}", blob::sri(w, other), blob::sri(algo, data))),
+                None => Some(blob::sri(algo, data)),
+            }
+        }
         IntegDecl::WrongTail => {
             let mut raw = blob::digest_raw(algo, data);
             let n = raw.len();
@@ -376,7 +391,11 @@ fn build_opts(ctx: &Ctx, s: &WriteSpec, data: &[u8]) -> cacache::WriteOpts {
             o = o.raw_metadata(vec![0xde, 0xc0]);
         }
         if s.integ != IntegDecl::None {
-            o = o.integrity(blob::sri(s.algo, b"decoy").parse().unwrap());
+            // a declaration that does not hold when the real one does, and the other way round
+            // (the last call alone decides whether the commit is accepted)
+            let real_holds = matches!(s.integ, IntegDecl::Correct | IntegDecl::MultiWithCorrect | IntegDecl::MultiTwoAlgos | IntegDecl::MultiWeakerOfOther);
+            let decoy = if real_holds { blob::sri(s.algo, b"decoy") } else { blob::sri(s.algo, data) };
+            o = o.integrity(decoy.parse().unwrap());
         }
     }
     if s.decoy_opts || !(s.algo == Algo::Sha256 && (data.len() + s.chunks.len()) % 2 == 0) {
